@@ -123,8 +123,8 @@ Case gen_case(const std::string& g) {
     for (int i = 0; i < n; i++) { uint8_t b = *rc::gen::arbitrary<uint8_t>(); if (pick<int>(0, 2) == 0) b = (uint8_t)(14 + pick<int>(0, 8) + 24 * pick<int>(0, 9)); c.data.push_back(b); }
   } else if (g == "hist") {
     c.campaign = "HISTR"; int n = pick<int>(1, 120);
-    static const int weights[] = {10, 3, 2, 3, 5, 8, 3, 8, 4, 5, 5, 5, 6, 4, 5, 3, 3, 3, 1, 1, 2, 2, 3, 2, 2};
-    std::vector<uint8_t> wheel; for (int o = 0; o < 25; o++) for (int k = 0; k < weights[o]; k++) wheel.push_back((uint8_t)o);
+    static const int weights[] = {10, 3, 2, 3, 5, 8, 3, 8, 4, 5, 5, 5, 6, 4, 5, 3, 3, 3, 1, 1, 2, 2, 3, 2, 2, 4};
+    std::vector<uint8_t> wheel; for (int o = 0; o < 26; o++) for (int k = 0; k < weights[o]; k++) wheel.push_back((uint8_t)o);
     for (int i = 0; i < n; i++) { c.data.push_back(wheel[(size_t)pick<int>(0, (int)wheel.size() - 1)]); for (int k = 0; k < 3; k++) c.data.push_back(*rc::gen::arbitrary<uint8_t>()); }
   } else if (g == "frag") {
     c.campaign = "FRAG"; int items = pick<int>(1, 5);
